@@ -66,6 +66,7 @@ SUP_NOTE = ("Trusted: TLC; the reference supervisor (spec/SupContract.tla) is wr
 CHECKS["C08"] = dict(level="model_checking", ref="DESIGN.md §4 C08, §9",
     text="Every configuration (type x strategy x KeepOrder x significant child x auto-shutdown) is run on real act.Supervisor processes with gated children through "
          "enumerated fault histories: every child x every reason at quiescence, second faults, DisableChild/EnableChild, and every order of 2-3 overlapping deaths; "
+         "simple-one-for-one supervisors (instances started with StartChild, faults on the k-th running instance, DisableChild / EnableChild / StartChild, compared by counts); "
          "TLC validates each recorded history against the sequential reference supervisor SupContract: running set, which children kept their process, start order, "
          "stop order under KeepOrder (as the supervisor saw it), fate and reason of the supervisor.",
     note=SUP_NOTE + " The three restart state machines are not transcribed transition by transition (planned); open findings P7a-c are matched by exact history.",
